@@ -237,28 +237,32 @@ func (rd *HandlingDataManager) initializeStreams() (err error) {
 		previousHaProxyReq = rd.buildHAProxyFlowsEndpointsRequest()
 	}
 
+	// The new engine is published (rd.stream) only once it is fully initialised
+	// and HAProxy manages its endpoints: transactions arriving meanwhile keep
+	// being served by the previous engine, and a failure at any step leaves the
+	// previous engine in place.
 	stream, err := streams.NewStream()
 	if err != nil {
 		return fmt.Errorf("failed to create stream: %w", err)
 	}
-	rd.stream = stream
 	verifhook.Yield("reload.published_not_initialised")
-	rd.stream.WithHub(rd.lunarHub)
-	if err = rd.stream.Initialize(); err != nil {
+	stream.WithHub(rd.lunarHub)
+	if err = stream.Initialize(); err != nil {
 		return fmt.Errorf("failed to initialize streams: %w", err)
 	}
 
-	rd.stream.InitializeHubCommunication()
+	stream.InitializeHubCommunication()
 	if err = config.WaitForProxyHealthcheck(); err != nil {
 		return fmt.Errorf("failed to wait for HAProxy healthcheck: %w", err)
 	}
 
-	newHAProxyEndpoints := rd.buildHAProxyFlowsEndpointsRequest()
+	newHAProxyEndpoints := rd.buildHAProxyFlowsEndpointsRequestFor(stream)
 
 	err = config.ManageHAProxyEndpoints(newHAProxyEndpoints)
 	if err != nil {
 		return fmt.Errorf("failed to initialize HAProxy endpoints: %v", err)
 	}
+	rd.stream = stream
 
 	// Unmanaging HAProxy endpoints should occur after all possible transactions have reached Engine
 	if previousHaProxyReq != nil &&
@@ -532,6 +536,12 @@ func (rd *HandlingDataManager) initializePolicies() error {
 }
 
 func (rd *HandlingDataManager) buildHAProxyFlowsEndpointsRequest() *config.HAProxyEndpointsRequest {
+	return rd.buildHAProxyFlowsEndpointsRequestFor(rd.stream)
+}
+
+func (rd *HandlingDataManager) buildHAProxyFlowsEndpointsRequestFor(
+	stream *streams.Stream,
+) *config.HAProxyEndpointsRequest {
 	if !rd.isStreamsEnabled {
 		return &config.HAProxyEndpointsRequest{}
 	}
@@ -540,7 +550,7 @@ func (rd *HandlingDataManager) buildHAProxyFlowsEndpointsRequest() *config.HAPro
 	reqCaptureForAll := false
 
 	managedEndpoints := []*config.HAProxyEndpointData{}
-	for _, filters := range rd.stream.GetSupportedFilters() {
+	for _, filters := range stream.GetSupportedFilters() {
 		if len(filters) == 0 {
 			continue
 		}
